@@ -17,7 +17,7 @@ let encode_1d (a : string list) : barcode outcome =
 
 let show_cs = function Some z -> string_of_int (int_of_z z) | None -> "NOCS"
 
-let () = register "cs" (fun a ->
+let cs_handler a =
   match a with
   | sizes :: enc ->
     (match encode_1d enc with
@@ -29,4 +29,8 @@ let () = register "cs" (fun a ->
        show_barcode bc ^ " | " ^ String.concat " " (show_cs c0 ::
          List.map (function Some c -> show_cs c | None -> "E") along)
      | Err -> "ERR" | Panic -> "PANIC" | OutOfFuel -> "OUTOFFUEL")
-  | _ -> "BAD")
+  | _ -> "BAD"
+
+let () = register "cs" cs_handler
+(* the colour scheme is stored, not interpreted: the check value and the modules do not depend on it *)
+let () = register "csc" (fun a -> match a with _ :: rest -> cs_handler rest | _ -> "BAD")
